@@ -881,6 +881,8 @@ namespace occa {
     const int retType = (a.type > b.type) ? a.type : b.type;
     OCCA_ERROR("Cannot apply operator /= with a zero integer divisor",
                (retType & primitiveType::isFloat) || b.to<uint64_t>());
+    OCCA_ERROR("Cannot apply operator /= : signed integer overflow",
+               !divisionOverflows(retType, a, b));
     switch(retType) {
       case primitiveType::bool_   : a = (a.to<bool>()     / b.to<bool>());     break;
       case primitiveType::int8_   : a = (a.to<int8_t>()   / b.to<int8_t>());   break;
@@ -902,6 +904,8 @@ namespace occa {
     const int retType = (a.type > b.type) ? a.type : b.type;
     OCCA_ERROR("Cannot apply operator %= with a zero integer divisor",
                (retType & primitiveType::isFloat) || b.to<uint64_t>());
+    OCCA_ERROR("Cannot apply operator %= : signed integer overflow",
+               !divisionOverflows(retType, a, b));
     switch(retType) {
       case primitiveType::bool_   : a = (a.to<bool>()     % b.to<bool>());     break;
       case primitiveType::int8_   : a = (a.to<int8_t>()   % b.to<int8_t>());   break;
